@@ -63,14 +63,15 @@ func BaseConf() *xconf.EnvConf {
 
 // NodeOpts are the genesis-level options of a generated node.
 type NodeOpts struct {
-	Window       int64 // irreversibleslidewindow
-	NoFee        bool  // genesis nofee
-	Award        int64 // block award
-	Quota        int64 // predistribution per ring address
-	PredistN     int   // number of ring addresses funded at genesis
-	MaxBlockSize int   // MB
-	NewAccGas    int64 // new_account_resource_amount
-	NoLog        bool  // do not keep a write log (replicas)
+	Window       int64  // irreversibleslidewindow
+	NoFee        bool   // genesis nofee
+	Award        int64  // block award
+	Quota        int64  // predistribution per ring address
+	QuotaStr     string // if set: decimal predistribution (amounts beyond 64 bit)
+	PredistN     int    // number of ring addresses funded at genesis
+	MaxBlockSize int    // MB
+	NewAccGas    int64  // new_account_resource_amount
+	NoLog        bool   // do not keep a write log (replicas)
 	GasPrice     [4]int64
 }
 
@@ -88,7 +89,11 @@ func (o NodeOpts) GenesisJSON() []byte {
 	}
 	pds := []pd{}
 	for i := 0; i < o.PredistN; i++ {
-		pds = append(pds, pd{Ring[i].Address, fmt.Sprint(o.Quota)})
+		q := fmt.Sprint(o.Quota)
+		if o.QuotaStr != "" {
+			q = o.QuotaStr
+		}
+		pds = append(pds, pd{Ring[i].Address, q})
 	}
 	g := map[string]interface{}{
 		"version":         "1",
